@@ -59,8 +59,11 @@ class ParsedHeaders(Mapping[bytes, Sequence[BaseHeader]]):
             #   https://github.com/python/typeshed/pull/4365
             # assign to hdr_name, hdr_value = ... instead.
             hdr_tuple = SMTP.header_source_parse(lines)
+            # white space between the field name and the colon is not part
+            # of the name
+            hdr_name = hdr_tuple[0].strip()
             try:
-                yield cls._registry(hdr_tuple[0], hdr_tuple[1])
+                yield cls._registry(hdr_name, hdr_tuple[1])
             except (IndexError, AttributeError, ValueError):
                 # the header value parser can fail on malformed values,
                 # such headers are treated as absent
